@@ -384,3 +384,133 @@ class CloneSegmentAndConnections(Contract):
         return [Case("edges", [gfa, SegObj(), CLONENAME], post, pre=pre, zh=h0, heap={gfa.oid: {}, cpy.oid: {}}, models=models, invariants=inv,
                      options=dict(alloc_lists=True, opaque_elems=True), symbols=dict(n_edges_listed=n), minimize=[n],
                      replay=lambda w: {"target": "bounded.replay_helpers:multiply_orchestration_cases"}, confirm=battery_confirm)]
+
+
+@register
+class DistributeLinks(Contract):
+    fn = "gfapy/graph_operations/multiplication.py::Multiplication._distribute_links"
+    props = ("C15",)
+    fragment = "H"
+    doc = ("_distribute_links(policy, name, copy_names, factor): nothing happens for a factor below 2 or when no end is selected; otherwise, with n links on the selected "
+           "end of the original and d = max(n - factor, 0), the m-th member of [original] + copies (m = 0, 1, ...) keeps on that end exactly the links whose "
+           "signature (the segment end on the other side) is among the signatures number m .. m+d of the original's links (Python's clamped slice), every other "
+           "link of that end which is still connected is disconnected - once - and no other line of the Gfa is touched (loop invariants over the members and over "
+           "the links of a member; for all numbers of copies and of links). With DistributeWindowCover (every signature index below n lies in the window of some "
+           "member below factor) no former neighbour loses all its links. Assumed: the links on that end of different members are different lines, listed once")
+
+    def cases(self, ctx):
+        g = ctx.gfapy
+        M = "gfapy/graph_operations/multiplication.py::Multiplication."
+        factor, nc = z3.Int("factor"), z3.Int("n_copies")
+        no_end = z3.Bool("no_end_selected")
+        AIAI = z3.ArraySort(I, AII)
+        seg_of = z3.Const("segment_with_name", AII)              # name -> segment
+        n_of = z3.Const("n_links_on_the_end", AII)               # segment -> number of dovetails on the selected end
+        link_at = z3.Const("link_on_the_end", AIAI)              # segment -> position -> link
+        sig = z3.Const("signature_of_link", AII)                 # link -> the segment end on its other side (what repr() shows)
+        bogus = z3.Const("signature_seen_from_another_segment", AII)
+        owner, posn = z3.Const("member_of_link", AII), z3.Const("position_of_link", AII)      # inverse of link_at over the members (the assumption: no link is listed twice)
+        copy_id = z3.Const("copy_name", AII)
+        name0 = z3.Int("segment_name")
+        conn0 = z3.Const("connected_before", AIB)
+        gfa = Obj(g.Gfa, "gfa")
+        end = Obj(None, "end_type")
+        policy = Obj(None, "policy")
+        copies = SList(nc, copy_id, lambda t: Ref(t))
+        m, p, q, l = z3.Int("m"), z3.Int("p"), z3.Int("q"), z3.Int("l")
+        k_members = nc + 1
+        mname = z3.Const("name_of_member", AII)                  # member -> name: the original's name, then the copy names (axioms in the precondition; keeps the quantifier patterns free of arithmetic)
+        x_ = z3.Int("x")
+        name_of = lambda mm: mname[mm]
+        seg_m = lambda mm: seg_of[mname[mm]]
+        N = n_of[seg_of[name0]]
+        diff = z3.If(N - factor > 0, N - factor, 0)
+        def clamp(x):
+            x = z3.If(x < 0, x + N, x)
+            return z3.If(x < 0, 0, z3.If(x > N, N, x))
+        def window(mm):
+            lo = clamp(mm); hi = clamp(mm + diff + 1)
+            return lo, z3.If(hi < lo, lo, hi)
+        def inwin(mm, s_):
+            lo, hi = window(mm)
+            return z3.Exists([q], z3.And(lo <= q, q < hi, sig[link_at[seg_of[name0]][q]] == s_))
+        class SE:                                                # a gfapy.SegmentEnd(name, end_type) built by the code
+            def __init__(self, name, et):
+                self.name, self.et = name, et
+        def m_se(E, st, pos, kw):
+            yield ("val", SE(pos[0], pos[1]), [])
+        def m_other_end(E, st, pos, kw):
+            lk, se = pos[0], pos[1]
+            if not isinstance(se, SE) or not isinstance(se.name, Ref) or se.et is not end:
+                raise Unsupported("other_end(%r)" % (se,))
+            # the link must be asked from the segment on whose end it was listed: lk is link_on_the_end[segment_with_name[NAME]][position], se must carry that NAME
+            t = z3.simplify(lk.t)                            # (beta reduction of the list's element function)
+            try:
+                listed_for = t.arg(0).arg(1).arg(1)
+                ok = z3.is_select(t) and z3.eq(t.arg(0).arg(0), link_at) and z3.eq(t.arg(0).arg(1).arg(0), seg_of) and z3.eq(z3.simplify(listed_for), z3.simplify(se.name.t))
+            except Exception:
+                ok = False
+            if not ok:
+                raise Unsupported("other_end: the segment end is not the one the link was listed on (%s / %s)" % (t, se.name.t))
+            yield ("val", Ref(sig[t], "signature"), [])
+        def m_repr(E, st, pos, kw):
+            yield ("val", pos[0], [])                         # (repr is injective on segment ends: the text stands for the end)
+        def m_segment(E, st, pos, kw):
+            yield ("val", Ref(seg_of[pos[1].t], g.line.segment.GFA1), [])
+        def m_dov(E, st, pos, kw):
+            if pos[1] is not end:
+                raise Unsupported("dovetails_of_end(%r)" % (pos[1],))
+            sg = pos[0].t
+            x = z3.Int("x!dov")
+            yield ("val", SList(n_of[sg], z3.Lambda([x], link_at[sg][x]), lambda t: Ref(t, g.line.edge.Link)), [])
+        def m_select(E, st, pos, kw):
+            ok = pos[1] is policy and isinstance(pos[2], Ref) and pos[3] is factor
+            if not ok:
+                raise Unsupported("_select_distribute_end called with other arguments")
+            yield ("val", None, [no_end])
+            yield ("val", end, [z3.Not(no_end)])
+        def m_is_connected(E, st, pos, kw):
+            yield ("val", st.zh["connected"][pos[0].t], [])
+        def m_disconnect(E, st, pos, kw):
+            zh = dict(st.zh)
+            # (disconnecting a line which is not connected raises: the code must ask first)
+            yield ("raise", Exc(g.RuntimeError), [z3.Not(st.zh["connected"][pos[0].t])], st)
+            zh["connected"] = z3.Store(zh["connected"], pos[0].t, z3.BoolVal(False))
+            zh["n_disconnects"] = zh["n_disconnects"] + 1
+            yield ("val", None, [st.zh["connected"][pos[0].t]], st.with_zh(zh))
+        import builtins
+        models = {ctx.fn(M + "_select_distribute_end"): m_select, ctx.fn("gfapy/lines/finders.py::Finders.segment"): m_segment,
+                  ctx.fn("gfapy/line/segment/references.py::References.dovetails_of_end"): m_dov,
+                  g.SegmentEnd: m_se, g.line.edge.Link.other_end: m_other_end, builtins.repr: m_repr,
+                  ctx.fn("gfapy/line/common/connection.py::Connection.is_connected"): m_is_connected,
+                  ctx.fn("gfapy/line/common/disconnection.py::Disconnection.disconnect"): m_disconnect}
+        def listed(ll):
+            return z3.And(0 <= owner[ll], owner[ll] < k_members)
+        def done_state(C, upto_m, upto_p):
+            """every link of a member below upto_m, and of member upto_m below position upto_p, is settled; every other line is as before"""
+            settled = z3.And(listed(l), z3.Or(owner[l] < upto_m, z3.And(owner[l] == upto_m, posn[l] < upto_p)))
+            return z3.ForAll([l], C[l] == z3.If(settled, z3.And(conn0[l], inwin(owner[l], sig[l])), conn0[l]))
+        label = "Multiplication._distribute_links"
+        def inv_outer(i, st):
+            return z3.And(0 <= i, i <= k_members, done_state(st.zh["connected"], i, 0))
+        def inv_inner(j_, st):
+            i = S(st.env["i"])
+            return z3.And(0 <= i, i < k_members, 0 <= j_, j_ <= n_of[seg_m(i)], st.env["sn"].t == name_of(i), done_state(st.zh["connected"], i, j_))
+        inv = {(label, 0): dict(inv=inv_outer, modheap=["connected", "n_disconnects"], mod={"i": lambda nm: fresh(nm, I), "sn": lambda nm: Ref(fresh(nm, I))}),
+               (label, 1): dict(inv=inv_inner, modheap=["connected", "n_disconnects"], mod={"l": lambda nm: Ref(fresh(nm, I), g.line.edge.Link)})}
+        pre = [nc >= 0, mname[0] == name0, z3.ForAll([x_], z3.Implies(z3.And(0 <= x_, x_ < nc), mname[x_ + 1] == copy_id[x_]), patterns=[copy_id[x_]]),
+               z3.ForAll([m], z3.Implies(z3.And(0 <= m, m < k_members), n_of[seg_m(m)] >= 0)),
+               # the links on the selected end of the members are pairwise different lines: owner / position invert link_at
+               z3.ForAll([m, p], z3.Implies(z3.And(0 <= m, m < k_members, 0 <= p, p < n_of[seg_m(m)]), z3.And(owner[link_at[seg_m(m)][p]] == m, posn[link_at[seg_m(m)][p]] == p))),
+               z3.ForAll([l], z3.Implies(listed(l), z3.And(0 <= posn[l], posn[l] < n_of[seg_m(owner[l])], link_at[seg_m(owner[l])][posn[l]] == l)))]
+        h0 = {"connected": conn0, "n_disconnects": z3.IntVal(0)}
+        def post(kd, v, st):
+            if kd == "raise":
+                return z3.BoolVal(False)
+            C = st.zh["connected"]
+            idle = z3.Or(factor < 2, no_end)
+            return z3.And(z3.Implies(idle, z3.And(C == conn0, st.zh["n_disconnects"] == 0)),
+                          z3.Implies(z3.Not(idle), done_state(C, k_members, 0)))
+        return [Case("windows", [gfa, policy, Ref(name0), copies, factor], post, pre=pre, zh=h0, heap={gfa.oid: {}, end.oid: {}, policy.oid: {}}, models=models, invariants=inv,
+                     symbols=dict(factor=factor, n_copies=nc), minimize=[nc, factor],
+                     replay=lambda w: {"target": "bounded.replay_helpers:distribute_links_cases"}, confirm=battery_confirm)]
